@@ -32,7 +32,12 @@ type Case struct {
 	N      int    `json:"n"`
 	Start  int    `json:"start"`
 	Fill   string `json:"fill,omitempty"` // "" = appended directly to the store; "bus" = published through the replaying bus; "mixed" = first half published, rest appended by another writer afterwards
-	Fault  string `json:"fault"` // none cberr cancel-before cancel-at store-read store-row sql-next sql-query http-err http-500 badrow
+	// Fault: none cberr cancel-before cancel-at store-read store-row sql-next
+	// sql-query http-err http-500 badrow; cancel-in-read cancels the context
+	// while the K-th store read (page, row fetch or HTTP request) is in flight
+	// and lets that read complete, cancel-in-read-err makes it fail with the
+	// context's error as a context-honouring store would.
+	Fault  string `json:"fault"`
 	K      int    `json:"k,omitempty"`
 }
 
@@ -50,7 +55,7 @@ func Run(c *Case) *vkit.Outcome {
 	var plan *storekit.FaultPlan
 	var srv *storekit.DSServer
 	var opts []eventbus.Option
-	var faultFired atomic.Bool
+	var faultFired, cancelFired atomic.Bool
 	var sqlPath string
 
 	switch c.Config {
@@ -175,6 +180,38 @@ func Run(c *Case) *vkit.Outcome {
 					return storekit.Action{Err: storekit.ErrInjected}
 				}
 				return storekit.Action{}
+			})
+		}
+	case "cancel-in-read", "cancel-in-read-err":
+		if base != nil {
+			want := "read"
+			if c.Config == "mem-stream" {
+				want = "row"
+			}
+			base.SetHook(func(op string, n, seq int, _ context.Context) storekit.Action {
+				if op == want && n == c.K {
+					cancelFired.Store(true)
+					cancel()
+					if c.Fault == "cancel-in-read-err" {
+						return storekit.Action{Err: context.Canceled}
+					}
+				}
+				return storekit.Action{}
+			})
+		}
+		if plan != nil {
+			plan.CallNext = c.K
+			plan.OnNext = func() { cancelFired.Store(true); cancel() }
+			plan.Arm(true)
+		}
+		if srv != nil {
+			base0 := int(srv.Requests())
+			srv.SetFault(func(n int, r *http.Request) (int, error) {
+				if n-base0 == c.K {
+					cancelFired.Store(true)
+					cancel()
+				}
+				return 0, nil
 			})
 		}
 	case "sql-next":
@@ -346,6 +383,12 @@ func Run(c *Case) *vkit.Outcome {
 	o.Class("fault_" + c.Fault)
 	if faultFired.Load() {
 		o.Class("store_fault_fired")
+	}
+	if cancelFired.Load() {
+		o.Class("cancelled_during_store_read")
+		if len(got) < rest {
+			o.Class("cancelled_during_store_read_before_the_end")
+		}
 	}
 	return o
 }
